@@ -546,6 +546,31 @@ def run(ctx):
             r5.fail(f"select from repeat[{desc}]", f"evaluates ({r.exc_name}{r.exc_args})", bx.loc())
             continue
         r5.check(got == (want_ns, [("value", "name"), ("label", "name")]), f"select from repeat[{desc}]", f"nodeset {want_ns}", bx.loc(), why_fail=repr(got))
+    # search() selects write their list in-line: one <item> per choice ROW, in sheet order - also when names repeat
+    # (allow_choice_duplicates) and whether labels are plain, carry references, or go through itext
+    ocls_ = repo.cls("pyxform.question:Option")
+    for desc, itext in (("plain labels", False), ("labels through itext", True)):
+        rows_ = [("a", "First"), ("b", "Second"), ("a", "Third (same name as the first)"), ("c", "Fourth")]
+        opts_ = tuple(_mk(ctx, ocls_, nm_, label=lb_, media=None, _choice_itext_ref=f"jr:itext('ls-{j_}')") for j_, (nm_, lb_) in enumerate(rows_))
+        iset_ = Obj(icls, {"name": "ls", "options": opts_, "requires_itext": itext, "used_by_search": True}, name="itemset_search")
+        el_ = _mk(ctx, mq, "s1", control={"appearance": "search('x')"}, itemset="", choices=iset_, list_name="ls", type="select one", bind={"type": "string"}, label="S", choice_filter=None, parameters=None)
+        CTRL_ = NodeVal("select1")
+        it_ = ctx.interp("C09.R5", hooks={"fnname:node": node_hook, "fnname:_build_xml": lambda i, a, k, n, C=CTRL_: C,
+                                          "fnname:insert_output_values": lambda i, a, k, n: (next((x for x in a if isinstance(x, str)), k.get("text")), False)})
+        it_.reset([])
+        sv_ = Obj(None, {"insert_output_values": lambda i, a, k, n: (next((x for x in a if isinstance(x, str)), k.get("text")), False)}, name="survey")
+        try:
+            it_.call_function(bx, [el_], {"survey": sv_}, None, bx.node)
+            items_ = []
+            for item in CTRL_.children:
+                if isinstance(item, NodeVal) and item.tag == "item":
+                    lab_ = next((c for c in item.children if isinstance(c, NodeVal) and c.tag == "label"), None)
+                    val_ = next((c for c in item.children if isinstance(c, NodeVal) and c.tag == "value"), None)
+                    items_.append((val_.text if val_ is not None else None, (lab_.attrs.get("ref") if itext else lab_.text) if lab_ is not None else None))
+        except Raised as r:
+            items_ = f"raises {r.exc_name}{r.exc_args}"
+        want_ = [(nm_, (f"jr:itext('ls-{j_}')" if itext else lb_)) for j_, (nm_, lb_) in enumerate(rows_)]
+        r5.check(items_ == want_, f"search() in-line items[{desc}, a choice name used twice]", "one item per choice row, in sheet order, each with its own label", bx.loc(), why_fail=repr(items_)[:240])
     # the parameters cell: names are case-insensitive; the values that name something of the author's (a file column for
     # value / label, a question for seed) keep their case, flag values are normalised
     pg = ctx.func("pyxform.validators.pyxform.parameters_generic:parse", "C09.R5")
